@@ -36,6 +36,14 @@ func fileExists(name string) (bool, error) {
 	return true, nil
 }
 
+func isEmptyFile(name string) (bool, error) {
+	info, err := os.Stat(name)
+	if err != nil {
+		return false, err
+	}
+	return info.Size() == 0, nil
+}
+
 func createSegment(name string, opt Options) (err error) {
 	f, err := os.OpenFile(name, os.O_RDWR|os.O_CREATE, opt.FileMode)
 	if err != nil {
